@@ -1,7 +1,7 @@
 """C02 - new: NewT stores each argument in the field it is named after."""
 import re
 
-from vlib import core, newgen, pkgrun, xferleg
+from vlib import core, newgen, pkgrun, xferleg, dirleg
 
 PROP = "C02"
 LEAN_MODULES = ["ShootVerif.Props.C02"]
@@ -277,6 +277,9 @@ def run(ctx, obl):
                 "constants of the package, rune/shift/len arithmetic, composite and function literals, code-like text inside string literals; alone and "
                 "next to other directives; all three selection modes) where the compiler evaluates the same expression next to NewT's result. non-trivial = at least one parameter and an embed, mark or default")
     def_expr_leg(ctx, res)
+    # the text of a def= value is what the directive recognisers cut out of the doc comment: Lean Directive model against the
+    # regexps of fields.go on random directive texts (tie only)
+    dirleg.run(ctx, res, ctx.n(20000, 200000))
     xferleg.run(ctx, res, ctx.n(20000, 200000))
     res.assumptions = ["reflection reads of unexported fields report the stored value"]
     return res
